@@ -177,6 +177,12 @@ fn header_size_for(len: usize, extra_128: usize) -> usize {
 
 /// A complete *standard* dat entry.
 pub fn standard_entry(blocks: &[BlockSpec], extra_header_128: usize, gap_128: &[usize]) -> Vec<u8> {
+    standard_entry_ordered(blocks, extra_header_128, gap_128, &[])
+}
+
+/// `phys_order`: the blocks in the order they are stored (a permutation of 0..n; empty = content order). The block
+/// table always lists them in content order, each with its own offset.
+pub fn standard_entry_ordered(blocks: &[BlockSpec], extra_header_128: usize, gap_128: &[usize], phys_order: &[usize]) -> Vec<u8> {
     let raw_total: usize = blocks.iter().map(|b| b.data.len()).sum();
     let enc: Vec<Vec<u8>> = blocks.iter().map(|b| encode_block(&b.data, b.mode)).collect();
     let hdr_len = 24 + 8 * blocks.len();
@@ -185,18 +191,22 @@ pub fn standard_entry(blocks: &[BlockSpec], extra_header_128: usize, gap_128: &[
     w.u32(hsize as u32).i32(2).u32(raw_total as u32);
     w.u32(((raw_total + 127) / 128) as u32).u32(enc.iter().map(|e| e.len() / 128).sum::<usize>() as u32);
     w.u32(blocks.len() as u32);
+    let phys: Vec<usize> = if phys_order.is_empty() { (0..blocks.len()).collect() } else { phys_order.to_vec() };
+    assert_eq!(phys.len(), blocks.len());
     let mut off = 0usize;
-    let mut offsets = vec![];
-    for (i, e) in enc.iter().enumerate() {
+    let mut offsets = vec![0usize; blocks.len()];
+    for &i in &phys {
         off += gap_128.get(i).copied().unwrap_or(0) * 128;
-        offsets.push(off);
-        w.u32(off as u32).u16(e.len() as u16).u16(blocks[i].data.len() as u16);
-        off += e.len();
+        offsets[i] = off;
+        off += enc[i].len();
+    }
+    for (i, e) in enc.iter().enumerate() {
+        w.u32(offsets[i] as u32).u16(e.len() as u16).u16(blocks[i].data.len() as u16);
     }
     w.pad_to(hsize);
-    for (i, e) in enc.iter().enumerate() {
+    for &i in &phys {
         w.pad_to(hsize + offsets[i]);
-        w.bytes(e);
+        w.bytes(&enc[i]);
     }
     w.b
 }
